@@ -647,6 +647,7 @@ ws_write_cb(void *arg)
 {
 	nni_ws   *ws = arg;
 	ws_frame *frame;
+	ws_frame *next;
 	nni_aio  *aio;
 	int       rv;
 
@@ -718,8 +719,20 @@ ws_write_cb(void *arg)
 		// This one cannot fail here, since we only do allocation
 		// at initial scheduling.
 		ws_frame_prep_tx(ws, frame);
-		// Schedule at end.  This permits other frames to interleave.
-		nni_list_append(&ws->txq, frame);
+		// The next fragment goes out before any other queued message:
+		// the fragments of one message must not be interleaved with
+		// those of another (RFC 6455 5.4).  Control frames (queued at
+		// the head, they have no aio) may still go in between.
+		NNI_LIST_FOREACH (&ws->txq, next) {
+			if (next->aio != NULL) {
+				break;
+			}
+		}
+		if (next != NULL) {
+			nni_list_insert_before(&ws->txq, frame, next);
+		} else {
+			nni_list_append(&ws->txq, frame);
+		}
 	}
 
 	ws_start_write(ws);
@@ -756,11 +769,17 @@ ws_write_cancel(nni_aio *aio, void *arg, nng_err rv)
 		// We will wait for callback on the txaio to finish aio.
 	} else {
 		// If scheduled, just need to remove node and complete it.
+		bool partial = (nni_aio_count(aio) != 0);
 		nni_list_remove(&ws->txq, frame);
 		frame->aio = NULL;
 		nni_aio_list_remove(aio);
 		nni_aio_finish_error(aio, rv);
 		ws_frame_fini(frame);
+		if (partial) {
+			// Some fragments of this message are on the wire already;
+			// the peer would take the next message for the rest of it.
+			ws_close(ws, WS_CLOSE_GOING_AWAY);
+		}
 	}
 	nni_mtx_unlock(&ws->mtx);
 }
